@@ -105,6 +105,7 @@ def gen_cases(tier):
         yield ('numrow', h)
     yield ('ecitable',)
     yield ('repeats',)
+    yield ('aba',)
     # family 5
     for r in (1, 2) if q else (1, 2, 3):
         for idx in itertools.product(range(len(PARTS)), repeat=r):
@@ -134,6 +135,8 @@ def do_call(content, kw, acc, case):
     acc.eval(case, nontrivial=True, outcome=(qr.designator, qr.mask, tuple((s.mode, s.count, s.eci) for s in rep.segments or ())),
              state=(qr.designator, qr.mode, kw.get('eci', False)))
     acc.sample({'content': content, 'kw': kw, 'designator': qr.designator, 'payload': rep.payload})
+    for fam, msg in C.meta_problems(qr, rep):
+        acc.violation(fam, '%s  [make(%r, **%r)]' % (msg, content if len(repr(content)) < 60 else '...', kw), case)
     if exp is None:
         acc.violation('accepted-unencodable', 'symbol returned although the text cannot be encoded as requested', case)
         return qr
@@ -224,6 +227,14 @@ def run_case(case, acc):
                     continue
                 do_call(content, kw, acc, ('call', content, kw))
                 acc.count('eci_table_rows')
+    elif kind == 'aba':
+        reps = {'numeric': '123', 'alphanumeric': 'ABC', 'byte': 'abc', 'kanji': '\u70b9\u6f22'}
+        for a in reps:
+            for b in reps:
+                if a != b:
+                    for content in ([reps[a], reps[b], reps[a]], [reps[a], reps[b], reps[b], reps[a]], [reps[a], reps[a], reps[b]]):
+                        for kw in ({}, {'micro': False}, {'version': 2, 'error': 'M'}):
+                            do_call(content, kw, acc, ('call', content, kw))
     elif kind == 'repeats':
         # the same (mergeable) part two, three and four times, and a following single call (cached / aliased segments)
         for p_ in PARTS + ['XY', '000', 'AB12', 'ab']:
